@@ -188,6 +188,32 @@ mod h {
     tuple_rt!(full_tuple_9, u8, i8, u16, i16, u32, i32, u64, i64, bool);
     tuple_rt!(full_tuple_10, u8, i8, u16, i16, u32, i32, u64, i64, bool, char);
     tuple_rt!(full_tuple_11, u8, i8, u16, i16, u32, i32, u64, i64, bool, char, u8);
+    /// extracting a value tuple as a Rust tuple of ANOTHER arity fails (panics) instead of returning a wrong value: a source with one value
+    /// more than the target (a truncation would go unnoticed otherwise) and one value less, for every macro-generated arity 4..12
+    macro_rules! tuple_arity {
+        ($longer:ident, $shorter:ident, $n:expr, $($t:ty),+) => {
+            #[kani::should_panic]
+            #[kani::proof]
+            #[kani::unwind(16)]
+            fn $longer() {
+                let v: u8 = kani::any();
+                let src = ValueTuple::Many(vec![Value::from(v); $n + 1]);
+                let _r: ($($t),+) = FromValueTuple::from_value_tuple(src);
+            }
+            #[kani::should_panic]
+            #[kani::proof]
+            #[kani::unwind(16)]
+            fn $shorter() {
+                let v: u8 = kani::any();
+                let src = ValueTuple::Many(vec![Value::from(v); $n - 1]);
+                let _r: ($($t),+) = FromValueTuple::from_value_tuple(src);
+            }
+        };
+    }
+    tuple_arity!(full_tuple_arity_longer_4, full_tuple_arity_shorter_4, 4, u8, u8, u8, u8);
+    tuple_arity!(full_tuple_arity_longer_5, full_tuple_arity_shorter_5, 5, u8, u8, u8, u8, u8);
+    tuple_arity!(full_tuple_arity_longer_8, full_tuple_arity_shorter_8, 8, u8, u8, u8, u8, u8, u8, u8, u8);
+    tuple_arity!(full_tuple_arity_longer_12, full_tuple_arity_shorter_12, 12, u8, u8, u8, u8, u8, u8, u8, u8, u8, u8, u8, u8);
     /// same-typed neighbours: order of the last positions of each arity (a swap of equal types is invisible to a type error)
     #[kani::proof]
     #[kani::unwind(14)]
